@@ -34,11 +34,11 @@ PROPS = {
     "C13": dict(targets=["Properties_C13.vo"], families=OUTPUT_FAMILIES, codes=[1301]),
     "C16": dict(targets=["Properties_C16.vo"], families=[("canvas", 1.0)], codes=[], extra="c16"),
     "C15": dict(targets=["Properties_C15.vo"], families=[("values", 1.0)], codes=[], extra="c15"),
-    "C17": dict(targets=["Properties_C17.vo"], families=[("term", 1.0), ("term_wild", 0.3), ], codes=[1701]),
-    "C05": dict(targets=["Properties_C05.vo"], families=[("items", 1.0), ("garbage", 0.3)], codes=[], extra="c05", expand=True),
+    "C17": dict(targets=["Properties_C17.vo"], families=[("term", 1.0), ("term_wild", 0.3), ("strings", 0.7)], codes=[1701], extra="c17"),
+    "C05": dict(targets=["Properties_C05.vo"], families=[("items", 1.0), ("garbage", 0.3), ("keyseq", 0.3)], codes=[], extra="c05", expand=True),
     "C06": dict(targets=["Properties_C06.vo"], families=[("chunks", 1.0), ("items", 0.3)], codes=[], extra="c06", expand=True),
     "C07": dict(targets=["Properties_C07.vo"], families=[("garbage", 1.0), ("chunks", 0.5), ("markup_wild", 1.0)], codes=[], extra="c07", expand=True),
-    "C20": dict(targets=["Properties_C20.vo"], families=[("chunks", 1.0), ("items", 0.5), ("garbage", 0.5)], codes=[], extra="c20", expand=True),
+    "C20": dict(targets=["Properties_C20.vo"], families=[("chunks", 1.0), ("keyseq", 0.5), ("items", 0.5), ("garbage", 0.5)], codes=[], extra="c20", expand=True),
     "C10": dict(targets=["Properties_C10.vo"], families=[("markup", 1.0), ("markup_respell", 0.5), ("markup_plain", 0.2), ("markup_wild", 0.3)], codes=[], extra="c10"),
     "C12": dict(targets=["Properties_C12.vo"], families=[], codes=[], special="c12"),
     "C14": dict(targets=["Properties_C14.vo"], families=[], codes=[], special="c14"),
@@ -74,6 +74,10 @@ def gen_family(family, seed, n):
             lines += gen.gen_items_case(r, cid)
         elif family == "chunks":
             lines += gen.gen_chunks_case(r, cid)
+        elif family == "strings":
+            lines += gen.gen_strings_case(r, cid)
+        elif family == "keyseq":
+            lines += gen.gen_keyseq_case(r, cid)
         elif family == "garbage":
             lines += gen.gen_garbage_case(r, cid)
         elif family == "markup":
@@ -267,15 +271,37 @@ KEYPAD_KEY = {1: 132, 2: 133, 3: 127, 4: 134, 5: 135, 6: 136, 11: 139, 12: 140, 
               17: 144, 18: 145, 19: 146, 20: 147, 21: 148, 23: 149, 24: 150}
 
 
+def seq_renderings(init, cmd, args):
+    """the ways a control sequence (initiator, arguments, command) can be spelled,
+    private markers ignored"""
+    body = b";".join(bytes.fromhex(a) if a != "-" else b"" for a in args) + bytes([cmd])
+    outs = [bytes([27, init]) + body]
+    if init == 91:
+        outs.append(bytes([155]) + body)
+    if init == 79:
+        outs.append(bytes([143]) + body)
+    return outs
+
+
 def oracle_c20(impl_lines):
     """an abstract key only from a sequence / line ending that encodes it; a
-    single ordinary byte is the key whose value is that byte"""
+    single ordinary byte is the key whose value is that byte; and the sequence a
+    key token carries was actually received"""
     fails = []
     known = {f["id"]: f for f in vc.load_known().get("findings", [])}
     d3 = set(known.get("D3", {}).get("match", {}).get("bytes", []))
     cases, order = vc.split_cases(impl_lines)
     for cid in order:
+        streams = {}
+        cur = None
         for l in cases[cid]:
+            if l.startswith("> T ") and " recv " in l:
+                t = l.split()
+                cur = t[2]
+                streams[cur] = streams.get(cur, b"") + (bytes.fromhex(t[4]) if t[4] != "-" else b"")
+                continue
+            if l.startswith("> "):
+                cur = None
             if not l.startswith("CB "):
                 continue
             for tk in parse_cb(l):
@@ -297,7 +323,8 @@ def oracle_c20(impl_lines):
                 else:
                     init, cmd = int(a[5]), int(a[6])
                     nargs = int(a[9])
-                    arg0 = a[10] if nargs > 0 else "-"
+                    args = a[10:10 + nargs]
+                    arg0 = args[0] if nargs > 0 else "-"
                     want = None
                     if init == 91 and cmd == 126:
                         try:
@@ -311,6 +338,37 @@ def oracle_c20(impl_lines):
                         want = SS3_KEY.get(cmd)
                     if want != key:
                         fails.append((cid, "key %d reported for a control sequence (initiator %d, command %d, first argument %s) that does not encode it" % (key, init, cmd, arg0)))
+                    elif cur is not None:
+                        norm = bytes(x for x in streams.get(cur, b"") if x not in (63, 62, 33))
+                        if not any(rn in norm for rn in seq_renderings(init, cmd, args)):
+                            fails.append((cid, "key %d reported with a control sequence (initiator %d, arguments %s, command %d) that does not occur in the input received" % (key, init, ",".join(args), cmd)))
+    return fails
+
+
+def oracle_c17(impl_lines):
+    """bytes -> attributed string -> to_string is the identity; to_string
+    distributes over concatenation"""
+    fails = []
+    cases, order = vc.split_cases(impl_lines)
+    for cid in order:
+        pend = None
+        ts = []
+        for l in cases[cid] + ["> END"]:
+            if l.startswith("> "):
+                if pend:
+                    kind, arg = pend
+                    if kind == "round" and (len(ts) != 1 or ts[0] != arg):
+                        fails.append((cid, "bytes %s converted to an attributed string and back give %s" % (arg, ts[0] if ts else "<nothing>")))
+                    if kind == "concat" and (len(ts) != 2 or ts[0] != ts[1]):
+                        fails.append((cid, "to_string(a + b) = %s but to_string(a) + to_string(b) = %s" % (ts[0] if ts else "?", ts[1] if len(ts) > 1 else "?")))
+                pend, ts = None, []
+                t = l[2:].split()
+                if len(t) >= 3 and t[0] == "M" and t[1] in ("ofbytes", "ofstd", "ofstdattr"):
+                    pend = ("round", t[2])
+                elif len(t) >= 2 and t[0] == "M" and t[1] == "concat":
+                    pend = ("concat", None)
+            elif l.startswith("TS "):
+                ts.append(l[3:].strip())
     return fails
 
 
@@ -343,7 +401,7 @@ def oracle_c07(impl_lines):
     return oracle_c05(impl_lines)
 
 
-EXTRA = {"c16": oracle_c16, "c15": oracle_c15, "c05": oracle_c05, "c06": oracle_c06, "c20": oracle_c20, "c07": oracle_c07, "c10": oracle_c10}
+EXTRA = {"c16": oracle_c16, "c15": oracle_c15, "c05": oracle_c05, "c06": oracle_c06, "c20": oracle_c20, "c07": oracle_c07, "c10": oracle_c10, "c17": oracle_c17}
 
 
 def known_for(pid):
